@@ -133,6 +133,13 @@ func (s Segment) Check(params index.Params) error {
 }
 
 func (s Segment) Recover(params index.Params) error {
+	// a log shorter than a file header is what is left of a torn first write, it holds nothing
+	if stat, err := os.Stat(s.Log); err == nil && stat.Size() > 0 && stat.Size() < message.HeaderSize {
+		if err := os.Truncate(s.Log, 0); err != nil {
+			return fmt.Errorf("restore log truncate: %w", err)
+		}
+	}
+
 	log, err := message.OpenReader(s.Log, s.Offset)
 	if err != nil {
 		return err
